@@ -70,7 +70,12 @@ def quad(
         device = out.device
         is_tuple_out = False
     elif len(out) > 0:
+        # the rule runs in the widest precision among the outputs (e.g. the
+        # backward integrand has one output per parameter, and the parameters
+        # can have different precisions)
         dtype = out[0].dtype
+        for o in out[1:]:
+            dtype = torch.promote_types(dtype, o.dtype)
         device = out[0].device
         is_tuple_out = True
     else:
